@@ -36,8 +36,12 @@ func (k msgServer) ClosePositions(goCtx context.Context, msg *types.MsgClosePosi
 			continue
 		}
 
-		err = k.CheckAndLiquidateUnhealthyPosition(ctx, &position, pool, ammPool, baseCurrency.Denom)
-		if err != nil {
+		// an item's error is only logged, so an item that fails half way must leave nothing behind
+		cacheCtx, write := ctx.CacheContext()
+		err = k.CheckAndLiquidateUnhealthyPosition(cacheCtx, &position, pool, ammPool, baseCurrency.Denom)
+		if err == nil {
+			write()
+		} else {
 			// Add log about error or not liquidated
 			liqLog = append(liqLog, fmt.Sprintf("Position: Address:%s Id:%d cannot be liquidated due to err: %s", position.Address, position.Id, err.Error()))
 		}
@@ -57,8 +61,11 @@ func (k msgServer) ClosePositions(goCtx context.Context, msg *types.MsgClosePosi
 			continue
 		}
 
-		err = k.CheckAndCloseAtStopLoss(ctx, &position, pool, baseCurrency.Denom)
-		if err != nil {
+		cacheCtx, write := ctx.CacheContext()
+		err = k.CheckAndCloseAtStopLoss(cacheCtx, &position, pool, baseCurrency.Denom)
+		if err == nil {
+			write()
+		} else {
 			// Add log about error or not closed
 			closeLog = append(closeLog, fmt.Sprintf("Position: Address:%s Id:%d cannot be liquidated due to err: %s", position.Address, position.Id, err.Error()))
 		}
@@ -78,8 +85,11 @@ func (k msgServer) ClosePositions(goCtx context.Context, msg *types.MsgClosePosi
 			continue
 		}
 
-		err = k.CheckAndCloseAtTakeProfit(ctx, &position, pool, baseCurrency.Denom)
-		if err != nil {
+		cacheCtx, write := ctx.CacheContext()
+		err = k.CheckAndCloseAtTakeProfit(cacheCtx, &position, pool, baseCurrency.Denom)
+		if err == nil {
+			write()
+		} else {
 			// Add log about error or not closed
 			takeProfitLog = append(takeProfitLog, fmt.Sprintf("Position: Address:%s Id:%d cannot be liquidated due to err: %s", position.Address, position.Id, err.Error()))
 		}
